@@ -723,6 +723,9 @@ def run(case, focus=None):
                     "rest:playfield-count-differs", "rest:conservation", "rest:playfield-available-differs", "rest:device-count-differs"):
                 msg = "[%s] %s" % (sig, msg)
                 sig = "rest:ball-lost-from-the-books:request-at-the-instant-an-idle-mechanical-eject-is-noticed"
+            if state.get("request_at_idle_mechanical_eject_notice") and sig == "always:negative-playfield-count":
+                msg = "[%s] %s" % (sig, msg)
+                sig = "always:ball-lost-from-the-books:request-at-the-instant-an-idle-mechanical-eject-is-noticed"
             if w.mid_eject_entry and not sig.endswith(":capture-before-eject-confirm"):
                 # MPF takes a ball which enters a device while that device's eject is unconfirmed for the ejected ball
                 # coming back (known finding). Its books are off from then on, so everything observed later in this
@@ -961,7 +964,8 @@ def run(case, focus=None):
                 break
             kind = op[0]
             applied = True
-            if kind in ("add_ball", "request", "eject", "eject_all") and w.idle_plunge_t is not None and \
+            if kind in ("add_ball", "request", "eject", "eject_all", "collect", "start", "mb_start", "mb_add", "bs_enable",
+                        "early_save", "bs_eject", "launch") and w.idle_plunge_t is not None and \
                     abs(rig.now - (w.idle_plunge_t + 0.5)) <= 0.011:
                 # known finding: a request made in the very millisecond in which MPF notices that a ball has left an idle
                 # mechanical launcher (0.5 s after it left) races with that handling
